@@ -289,7 +289,7 @@ def run_vh(ctx, args, timeout=3600, allow_rc=(0,)):
         log(r.stderr[-3000:])
     if r.returncode not in allow_rc:
         raise ToolError(f"harness {' '.join(cmd[1:3])} failed rc={r.returncode}: {r.stderr[-2000:]}")
-    last = r.stdout.strip().splitlines()[-1] if r.stdout.strip() else "{}"
+    last = r.stdout.strip().split("\n")[-1] if r.stdout.strip() else "{}"
     try:
         stats = json.loads(last)
     except Exception:
